@@ -205,11 +205,11 @@ Section QScale.
     Lemma fulfills_rel v v' q q' : qsc v v' -> qsc q q' -> fulfills v' q' = fulfills v q.
     Proof. intros Hv Hq. unfold QuotaDistributor.fulfills. rewrite (qsc_le _ _ _ _ Hv Hq), (qsc_eq _ _ _ _ Hv Hq). reflexivity. Qed.
 
-    Lemma scan_rel q q' n prev caps : qsc q q' -> forall l l', vrel l l' -> forall acc,
-      scan accept_equal l' q' n prev caps acc = scan accept_equal l q n prev caps acc.
+    Lemma scan_rel q q' prev caps : qsc q q' -> forall l l', vrel l l' -> forall sel,
+      scan accept_equal l' q' prev caps sel = scan accept_equal l q prev caps sel.
     Proof.
-      intros Hq l l' H. induction H as [|[c v] [c' v'] l l' Hy Hl IH]; intros acc; simpl; [reflexivity|].
-      destruct Hy as [Hc Hv]. simpl in Hc, Hv. subst c'. destruct acc as [[sel nov] ovc].
+      intros Hq l l' H. induction H as [|[c v] [c' v'] l l' Hy Hl IH]; intros sel; simpl; [reflexivity|].
+      destruct Hy as [Hc Hv]. simpl in Hc, Hv. subst c'.
       rewrite (fulfills_rel _ _ _ _ Hv Hq), (py_trunc_Qeq _ _ (qsc_div _ _ _ _ Hv Hq)). apply IH.
     Qed.
 
@@ -251,44 +251,26 @@ Section QScale.
       destruct (over - 1 <=? 0)%Z; [reflexivity|]. apply ksubtract_rel; assumption.
     Qed.
 
-    Theorem qd_eval_rel fuel : forall votes votes' n prev caps, vrel votes votes' ->
-      qd_eval quota accept_equal pol fuel votes' n prev caps = qd_eval quota accept_equal pol fuel votes n prev caps.
+    Theorem qd_evaluate_rel votes votes' n prev caps : vrel votes votes' ->
+      qd_evaluate quota accept_equal pol votes' n prev caps = qd_evaluate quota accept_equal pol votes n prev caps.
     Proof.
-      induction fuel as [|f IH]; intros votes votes' n prev caps Hv; [reflexivity|].
-      cbn [qd_eval].
+      intros Hv. unfold qd_evaluate.
       pose proof (quota_homog _ _ n (qsumv_rel _ _ Hv)) as Hq.
       set (q := quota (qsumv votes) n) in *. set (q' := quota (qsumv votes') n) in *.
       assert (Hz : Qeq_bool q' 0 = Qeq_bool q 0).
       { apply qsc_eq; [exact Hq|]. unfold qsc. ring. }
       rewrite Hz, (existsb_fulfills_rel _ _ _ _ Hq Hv).
       destruct (Qeq_bool q 0 && existsb (fun cv : C * Q => fulfills (snd cv) q) votes); [reflexivity|].
-      rewrite (scan_rel _ _ n prev caps Hq _ _ Hv).
-      destruct (scan accept_equal votes q n prev caps ([], 0%Z, [])) as [[sel nov] ovc].
-      assert (Hg : map (fun cv : C * Q => (fst cv, (dget_or sel (fst cv) 0 + dget_or prev (fst cv) 0)%Z)) votes'
-                   = map (fun cv : C * Q => (fst cv, (dget_or sel (fst cv) 0 + dget_or prev (fst cv) 0)%Z)) votes).
-      { clear -Hv. induction Hv as [|y y' l l' Hy Hl IHl]; simpl; [reflexivity|]. rewrite IHl, (proj1 Hy). reflexivity. }
-      rewrite Hg.
-      rewrite (IH _ _ nov _ caps (vrel_filter (fun c => negb (cmem c ovc)) _ _ Hv)).
-      destruct (nov =? 0)%Z.
-      - cbn [existsb flat_map]. destruct (n <? _)%Z; [|reflexivity].
-        destruct pol; try reflexivity. apply subtract_rel; assumption.
-      - destruct (qd_eval quota accept_equal pol f _ nov _ caps); try reflexivity.
-        destruct (existsb _ sel0); [reflexivity|].
-        destruct (n <? _)%Z; [|reflexivity].
-        destruct pol; try reflexivity. apply subtract_rel; assumption.
-    Qed.
-
-    Theorem qd_evaluate_rel votes votes' n prev caps : vrel votes votes' ->
-      qd_evaluate quota accept_equal pol votes' n prev caps = qd_evaluate quota accept_equal pol votes n prev caps.
-    Proof.
-      intros Hv. unfold qd_evaluate. rewrite (lrel_length _ _ _ Hv). apply qd_eval_rel, Hv.
+      rewrite (scan_rel _ _ prev caps Hq _ _ Hv).
+      destruct (n <? _)%Z; [|reflexivity].
+      destruct pol; try reflexivity. apply subtract_rel; assumption.
     Qed.
 
     Theorem lr_evaluate_rel votes votes' n prev caps : vrel votes votes' ->
       lr_evaluate quota accept_equal pol votes' n prev caps = lr_evaluate quota accept_equal pol votes n prev caps.
     Proof.
-      intros Hv. unfold lr_evaluate. rewrite (qd_evaluate_rel _ _ n prev [] Hv).
-      destruct (qd_evaluate quota accept_equal pol votes n prev []) as [qe| | | | |]; try reflexivity.
+      intros Hv. unfold lr_evaluate. rewrite (qd_evaluate_rel _ _ n prev caps Hv).
+      destruct (qd_evaluate quota accept_equal pol votes n prev caps) as [qe| | | | |]; try reflexivity.
       destruct (existsb _ qe); [reflexivity|].
       pose proof (quota_homog _ _ n (qsumv_rel _ _ Hv)) as Hq.
       set (q := quota (qsumv votes) n) in *. set (q' := quota (qsumv votes') n) in *.
